@@ -1,7 +1,7 @@
 import RotondaModel.Model.BmpIo
 /-! Line driver for the BMP framing / read-loop model (C06). One case per input line.
 
-Case lines:  `frame|<items>|<valid>`,  `sess|<items>|<valid>`  and  `fatal|<kind>` (the extracted table)
+Case lines:  `frame|<items>|<valid>`,  `sess|<items>|<valid>[|crash=<k>]`  and  `fatal|<kind>` (the extracted table)
   items  = space separated: `x<hex>` a run of bytes, `z<n>` n zero bytes, `f.<kind>` a fault,
            `t` gate termination; `-` for the empty script
   valid  = one char per completely read frame, in order (`-` = none): what the real
@@ -64,18 +64,26 @@ def showOutcome : Outcome → String
   | .panic _ => "panic"
   | .terminated => "term"
 
+/-- `crash = some k`: the real `process_msg` panicked on the k-th accepted message (reported by
+    the engine; the handler is a parameter of the model). The real counter `msgs` is incremented
+    before processing, so the crashing message is counted. -/
+def sessCase (v : Variant) (items valid : String) (crash : Option Nat) : String :=
+  let s := parseItems items
+  let r := runLoop v (crashingHandler crash) (parseValid valid) s 0
+  let fatal := match r.fin with | .fatal _ => 1 | _ => 0
+  let fin := match r.fin with | .panicked => "panic" | .fuel => "fuel" | _ => "done"
+  let hc := if r.evs.any (fun e => match e with | .panic .handler => true | _ => false) then 1 else 0
+  s!"ioerrs={countIoErrs r.evs - fatal} msgs={countMsgs r.evs + hc} rest={r.rest.length} end={fin}"
+
 def runCase (v : Variant) (line : String) : String :=
+  let sess := sessCase v
   match line.splitOn "|" with
   | ["frame", items, valid] =>
     let s := parseItems items
     let r := readFrame v (parseValid valid 0) s
     s!"{showOutcome r.1} rest={r.2.length}"
-  | ["sess", items, valid] =>
-    let s := parseItems items
-    let r := runLoop v trivialHandler (parseValid valid) s ()
-    let fatal := match r.fin with | .fatal _ => 1 | _ => 0
-    let fin := match r.fin with | .panicked => "panic" | .fuel => "fuel" | _ => "done"
-    s!"ioerrs={countIoErrs r.evs - fatal} msgs={countMsgs r.evs} rest={r.rest.length} end={fin}"
+  | ["sess", items, valid] => sess items valid none
+  | ["sess", items, valid, crash] => sess items valid ((crash.drop 6).toNat?)
   | ["fatal", k] => s!"{isFatal (kindOf k)}"
   | _ => "bad-case"
 
